@@ -220,6 +220,21 @@ def analyse(rep, prog, fn, rule, spec):
             good = k[0] == "bin" and k[1] == "Div" and k[2][0] == "call" and k[2][1].endswith("Lower::frames") and T.const_val(k[3]) == LEN
             rep.check(good, rule, "%s|bitfield-split-point" % fn.split("::")[-1], "bitfields split at frames / LEN",
                       "bitfields are split at %s" % T.show(k), t["span"])
+        elif cn == "slice::split_at" and "'children'" in str(src):
+            # the boundary table of reserve_all: entries [0, frames / LEN - full tables * TREE_HUGE) are whole huge frames; a
+            # rounded-up quotient would mark the partially covered huge frame (whose bitfield is all-one) as a huge allocation
+            k = tm.operand(t["args"][1])
+            TH = prog.crate("llfree").const("llfree::TREE_HUGE")
+            le = T.linear(k)
+            good = False
+            if le is not None and le[1] == 0 and len(le[0]) == 2:
+                divs = [a for a, v in le[0].items() if v == 1 and a[0] == "bin" and a[1] == "Div"]
+                lens = [a for a, v in le[0].items() if v == -TH and a[0] == "call" and a[1] == "slice::len"]
+                if divs and lens:
+                    d = divs[0]
+                    good = d[2][0] == "call" and d[2][1].endswith("Lower::frames") and T.const_val(d[3]) == LEN
+            rep.check(good, rule, "%s|table-split-point" % fn.split("::")[-1], "boundary table split at frames / LEN - full tables * TREE_HUGE",
+                      "the boundary table is split at %s, expected frames / LEN - tables.len() * TREE_HUGE (whole huge frames only)" % str(k)[:200], t["span"])
     return leaves
 
 
